@@ -303,6 +303,21 @@ func checkC07(c *Ctx) {
 	for _, pk := range curvePkgs {
 		if dec := p.Func(pk, "Decoder", "Decode"); dec != nil {
 			checkParallelPhase(c, p, dec)
+			// items of a compressed slice are set by unsafeSetCompressedBytes, which trusts the
+			// flag bits: the stream decoder validates the mask of each item before it
+			var sets []ssa.Instruction
+			for _, b := range dec.Blocks {
+				for _, in := range b.Instrs {
+					if call, ok := in.(*ssa.Call); ok && calleeOf(&call.Call).Name == "unsafeSetCompressedBytes" {
+						sets = append(sets, in)
+					}
+				}
+			}
+			// (curves with a 3-bit flag field have reserved patterns and an isMaskInvalid predicate;
+			// the 2-bit layouts of bn254 / grumpkin / stark-curve / secp256k1 have none)
+			if len(sets) > 0 && p.Func(pk, "", "isMaskInvalid") != nil {
+				RequireFactsAtInstr(c, p, "C07.guard", dec, sets, "compressed-slice-item-set", []Req{{"item-mask-valid", `^not isMaskInvalid\(`}})
+			}
 		}
 	}
 	for t := range eff.Trusted {
